@@ -184,7 +184,7 @@ impl Prop for C01 {
         "C01"
     }
     fn rule_text(&self) -> String {
-        "case = (config from the whole action grammar restricted to non-latching use: virtual keys only in balanced templates; physically consistent history with repeats, bursts > 32 events/ms, clock jumps, capacity pressure; every key eventually released, then silence for Q(cfg)+E ms). Oracle evaluated after the last release only. non-trivial = at least one OS key/button went down during the run; distinct = distinct output trace signature.".into()
+        "case = (config from the whole action grammar restricted to non-latching use: virtual keys only in balanced templates; physically consistent history with repeats, bursts > 32 events/ms, clock jumps, capacity pressure; every key eventually released, then silence for Q(cfg)+E ms). Oracle evaluated after the last release only. 3 of 8 cases run with a late loop (2 / 5 / 50 ms per iteration, tick_ms(n)). non-trivial = at least one OS key/button went down during the run; distinct = distinct output trace signature.".into()
     }
     fn runs(&self, tier: Tier) -> u64 {
         match tier {
